@@ -194,12 +194,23 @@ func execFraming(t *testing.T, plan *simkit.Plan) *simkit.Result {
 	if len(res.Violations) == 0 && res.Trouble == "" {
 		var ms0, ms1 runtime.MemStats
 		var prefix [binary.MaxVarintLen64]byte
-		size := uint64(100*1024*1024 + 1 + plan.Seed%1000)
+		// Any declared size above the limit, across the whole range a 64-bit
+		// varint can express (a corrupt or hostile peer chooses it freely).
+		k := plan.Seed % 1000
+		sizes := []uint64{100*1024*1024 + 1 + k, 1<<31 - 1 + k, 1<<32 + k, 1<<40 + k, 1<<62 + k, 1<<63 - 1 - k, 1 << 63, 1<<63 + k, ^uint64(0) - k, ^uint64(0)}
+		size := sizes[(plan.Seed/1000)%uint64(len(sizes))]
 		n := binary.PutUvarint(prefix[:], size)
 		runtime.ReadMemStats(&ms0)
-		err := encoding.NewProtobufDecoder(bufio.NewReader(io.MultiReader(bytes.NewReader(prefix[:n]), zeroReader{}))).Decode(&rsync.Transmission{})
+		var err error
+		var panicked any
+		func() {
+			defer func() { panicked = recover() }()
+			err = encoding.NewProtobufDecoder(bufio.NewReader(io.MultiReader(bytes.NewReader(prefix[:n]), zeroReader{}))).Decode(&rsync.Transmission{})
+		}()
 		runtime.ReadMemStats(&ms1)
-		if err == nil {
+		if panicked != nil {
+			res.Violations = append(res.Violations, simkit.Violation{Property: "C22", Rule: "oversize-not-rejected", Class: "panic", Detail: fmt.Sprintf("a declared message size of %d bytes made the decoder panic instead of rejecting it: %v", size, panicked)})
+		} else if err == nil {
 			res.Violations = append(res.Violations, simkit.Violation{Property: "C22", Rule: "oversize-accepted", Class: "Decode", Detail: fmt.Sprintf("a declared message size of %d bytes was accepted", size)})
 		} else if ms1.TotalAlloc-ms0.TotalAlloc > 50*1024*1024 {
 			res.Violations = append(res.Violations, simkit.Violation{Property: "C22", Rule: "oversize-allocated", Class: "Decode", Detail: fmt.Sprintf("rejecting a declared size of %d bytes allocated %d bytes", size, ms1.TotalAlloc-ms0.TotalAlloc)})
